@@ -921,6 +921,30 @@ var scenarioTable = map[string]func(s *sc){
 		s.inject(1, s.adv.mkC(ref(protocol.LEAN_HELIX_COMMIT, 1, 1, y), s.cl.ids[0], "", ""), "c_byz_or_outsider")
 		s.flush(any)
 	},
+	// C09 (leader side, all honest; n... nobody Byzantine acts): n2 becomes prepared on B0 in view 0 and is then cut off.  n0, n1, n3 time
+	// out; n1 is elected without any lock among its votes and proposes a fresh B1, on which n3 becomes prepared in view 1.  Everybody
+	// times out again; n2 - leader of view 2, holding its OWN older lock (0, B0) - is elected by its own vote and those of n3 (lock
+	// (1, B1)) and n0: it must re-propose B1, the block of the HIGHEST proof, not the block it is locked on itself.
+	"elected_leader_holds_an_older_lock_than_one_of_its_voters": func(s *sc) {
+		s.startNodes()
+		s.flush(kinds("PP"))
+		s.flush(func(p pending, k string) bool { return k == "P" && p.to == 2 }) // only n2 sees the PREPAREs: prepared on B0
+		s.dropAll(any)
+		for _, i := range []int{0, 1, 3} {
+			s.timeout(i)
+		}
+		s.flush(func(p pending, k string) bool { return k == "VC" && p.to == 1 })
+		s.flush(func(p pending, k string) bool { return k == "NV" && p.to != 2 })
+		s.flush(func(p pending, k string) bool { return k == "P" && p.to == 3 }) // only n3 becomes prepared on B1
+		s.dropAll(any)
+		s.timeout(2) // n2: view 1 (its vote for view 1 is lost)
+		s.dropAll(any)
+		for _, i := range []int{2, 3, 0} {
+			s.timeout(i)
+		}
+		s.flush(func(p pending, k string) bool { return k == "VC" && p.to == 2 })
+		s.flush(any)
+	},
 	// C03/C01: nobody is prepared in view 0 (the PREPAREs for B are lost; the adversary has seen them), but the next leader n1
 	// holds the proposal B.  Everybody times out.  The Byzantine member n3 votes first, with a GENUINE prepared proof for B but
 	// ANOTHER block X attached.  n1 must not count that vote (the block it would re-propose is not the certified one).  Then
@@ -1113,7 +1137,8 @@ func scenarioByz(name string) []int {
 		"equivocating_first_leader_commit_quorum_for_the_other_block", "lagging_node_with_conflicting_proposal_behind_commit_quorum_in_its_cache",
 		"late_commits_of_a_left_view_reach_a_member_that_prepared_the_next_view":
 		return []int{0}
-	case "lagging_node_drains_cached_height", "new_view_reaches_member_that_has_not_timed_out", "new_view_two_views_ahead_reaches_member_in_view_0":
+	case "lagging_node_drains_cached_height", "new_view_reaches_member_that_has_not_timed_out", "new_view_two_views_ahead_reaches_member_in_view_0",
+		"elected_leader_holds_an_older_lock_than_one_of_its_voters":
 		return nil
 	case "lagging_member_with_foreign_instance_prepare_in_its_future_cache", "byzantine_commit_for_another_hash_before_two_genuine_commits",
 		"byzantine_commit_with_share_copied_from_a_genuine_commit", "vote_with_genuine_proof_and_another_block_to_a_leader_holding_the_proposal",
